@@ -166,8 +166,12 @@ def jobs(tier):
         for ml in ((8, 200) if q else (0, 1, 4, 8, 9, 60, 200, 255)):
             J(kinds=['mpg'], srcs=[P], gaps=['0'], phase=ph, length=16, mpglen=ml)
     if not q:
+        # two FD frames: every second-frame field is symbolic again (16 session numbers x 6 control types x field
+        # comparisons); explored under a budget and reported as non-exhaustive where the budget is hit
         for ph in phases:
-            for g in tuple(GAPS):
-                J(kinds=['cm', 'dt'], srcs=[P, P], gaps=['0', g], phase=ph, wall=6000)
-            J(kinds=['cm', 'cm'], srcs=[P, P], gaps=['0', '0'], phase=ph, wall=6000)
+            for g in ('0', '1.26s'):
+                out.append(Job('C07', 'c07fd:h_hostile_fd', {'kinds': ['cm', 'dt'], 'srcs': [P, P], 'gaps': ['0', g], 'phase': ph}, W=40, wall=1500,
+                               max_paths=400000, validate=1, partial_ok=True))
+        out.append(Job('C07', 'c07fd:h_hostile_fd', {'kinds': ['cm', 'cm'], 'srcs': [P, P], 'gaps': ['0', '0'], 'phase': 'all_sent'}, W=40, wall=1500,
+                       max_paths=400000, validate=1, partial_ok=True))
     return out
